@@ -669,6 +669,12 @@ func contractKey(fn *types.Func) (pkgPath, key string) {
 }
 
 func (e *Exec) callFunc(st *State, fn *types.Func, recv *Val, args []Val, x *ast.CallExpr) Val {
+	res := e.callFunc0(st, fn, recv, args, x)
+	e.postCallTracks(st, fn, recv, args, res, x)
+	return res
+}
+
+func (e *Exec) callFunc0(st *State, fn *types.Func, recv *Val, args []Val, x *ast.CallExpr) Val {
 	name := fn.Origin().FullName()
 	sig := fn.Type().(*types.Signature)
 	e.callsiteChecks(st, fn, recv, args, x)
